@@ -166,6 +166,9 @@ struct Knobs {
     /// milliseconds) - longer than the plain response timeout, far below
     /// the streaming one.
     xfer_gap_ms: u64,
+    /// The peer refuses the transfer: 1 = REFUSED with the question, 2 = a
+    /// header-only REFUSED (no question section).
+    xfer_refused: u8,
 }
 
 /// Per-server disposition for the composite transports.
@@ -582,7 +585,19 @@ async fn stream_conn_peer(led: Led, kn: Knobs, server: usize, health: Health, ac
             if p.qtype == Some(Rtype::AXFR) {
                 // A zone transfer: its messages follow one another a few
                 // milliseconds apart; the id stays taken until the last one.
-                let msgs = dns::mk_xfer_msgs(&body, kn.xfer_msgs.max(1) as usize);
+                let msgs = if kn.xfer_refused > 0 {
+                    let mut mb = domain::base::MessageBuilder::new_vec();
+                    mb.header_mut().set_id(p.id);
+                    mb.header_mut().set_qr(true);
+                    mb.header_mut().set_rcode(domain::base::iana::Rcode::REFUSED);
+                    let mut qb = mb.question();
+                    if kn.xfer_refused == 1 {
+                        qb.push((dns::name("xfer.sim."), Rtype::AXFR)).unwrap();
+                    }
+                    vec![qb.finish()]
+                } else {
+                    dns::mk_xfer_msgs(&body, kn.xfer_msgs.max(1) as usize)
+                };
                 let now = sim::now_ns();
                 let mut at = now + sim::draw("peer.xfer_first_ms", 5) * 1_000_000;
                 for (i, m) in msgs.iter().enumerate() {
@@ -1039,6 +1054,7 @@ async fn run(_tier: Tier) {
         fin_after: if !faulty && matches!(kind, Kind::Stream | Kind::Multi) && sim::chance("cfg.orderly_fin", 1, 2) { 2 + sim::draw("cfg.fin_after", 3) as u32 } else { 0 },
         xfer_msgs: 0,
         xfer_gap_ms: 0,
+        xfer_refused: 0,
     };
     let mut kn = kn;
     if kn.kind == Kind::Stream && kn.fin_after == 0 && sim::chance("cfg.transfer_on_the_connection", 1, 3) {
@@ -1049,6 +1065,13 @@ async fn run(_tier: Tier) {
             kn.xfer_msgs = 2 + sim::draw("cfg.slow_xfer_msgs", 3) as u32;
             kn.xfer_gap_ms = kn.st_response_timeout_ms + 1000;
             sim::stat("probe.slow_streaming_response");
+        }
+        // The peer may refuse the transfer: one message with an error code
+        // - with or without the question - is the whole response.
+        else if sim::chance("cfg.transfer_refused", 1, 6) {
+            kn.xfer_refused = 1 + sim::draw("cfg.transfer_refused_how", 2) as u8;
+            kn.xfer_msgs = 1;
+            sim::stat("probe.streaming_request_refused");
         }
         // (Not with "close as soon as nothing is outstanding": whether the
         // streaming request is registered before the connection notices that
